@@ -51,6 +51,8 @@ type c10Plan struct {
 	GroupBy  string   `json:"group_by"` // region | id
 	TopN     int      `json:"top_n"`    // 0 = no top
 	TopDesc  bool     `json:"top_desc"`
+	// ShardBase is added to the shard indexes 0..Shards-1 to form the shard ids the data nodes report (groups with many shards).
+	ShardBase uint32 `json:"shard_base,omitempty"`
 }
 
 const (
@@ -535,7 +537,7 @@ func TestVerifC10Plans(t *testing.T) {
 		Property: "C10", Unit: "plans",
 		Rule: "1..40 rows (series svc-0..7 in regions r0..3, int field value / float field value/4, boundary ints for MIN/MAX/COUNT, moderate ints for " +
 			"SUM/MEAN), function in {SUM,COUNT,MIN,MAX,MEAN}, group-by region (non-entity: a group spans nodes) or id, optional TOP/BOTTOM-N, and a " +
-			"partition of the series over 1..4 shards (= data nodes) with 0..2 extra replica responses per shard; oracles: single-place plan == reference " +
+			"partition of the series over 1..4 shards (= data nodes; shard ids start at a base in {0, 30, 61, 63, 64, 255, 4096, 2^31}) with 0..2 extra replica responses per shard; oracles: single-place plan == reference " +
 			"evaluator; distributed plan over the partition == single-place plan (valid-window comparison under top-N ties); non-trivial = >= 2 shards " +
 			"with rows and a group whose rows live on >= 2 shards",
 		Known: []verifkit.Known[c10Plan]{{Key: "mean-clamped-to-1", Match: meanBelowOnePlan}},
@@ -549,6 +551,7 @@ func TestVerifC10Plans(t *testing.T) {
 			for i := 0; i < 8; i++ {
 				c.ShardOf = append(c.ShardOf, rapid.IntRange(0, c.Shards-1).Draw(t, "shardof"))
 			}
+			c.ShardBase = rapid.SampledFrom([]uint32{0, 0, 0, 30, 61, 63, 64, 255, 4096, 1 << 31}).Draw(t, "shardbase")
 			for i := 0; i < c.Shards; i++ {
 				c.Replicas = append(c.Replicas, rapid.SampledFrom([]int{0, 0, 1, 2}).Draw(t, "replicas"))
 			}
@@ -662,7 +665,7 @@ func TestVerifC10Plans(t *testing.T) {
 					withRows++
 				}
 				for k := 0; k <= c.Replicas[s%len(c.Replicas)]; k++ {
-					nodes = append(nodes, c10Node{name: fmt.Sprintf("data-%d-%d", s, k), ec: &c10EC{rows: perShard[s], shard: common.ShardID(s)}})
+					nodes = append(nodes, c10Node{name: fmt.Sprintf("data-%d-%d", s, k), ec: &c10EC{rows: perShard[s], shard: common.ShardID(c.ShardBase + uint32(s))}})
 				}
 			}
 			distDP, err := c10RunDistributed(proto.Clone(req).(*measurev1.QueryRequest), nodes)
@@ -712,6 +715,7 @@ func TestVerifC10Plans(t *testing.T) {
 			x.Label("group-by:" + c.GroupBy)
 			x.LabelIf(span, "group spans >=2 shards")
 			x.LabelIf(len(nodes) > c.Shards, "replica responses")
+			x.LabelIf(len(nodes) > c.Shards && c.ShardBase+uint32(c.Shards) > 64, "replica responses for shard ids >= 64")
 			x.LabelIf(c.TopN > 0 && c.TopN < len(ref), "top-N cuts")
 			if withRows >= 2 && span {
 				x.NonTrivial()
